@@ -23,6 +23,7 @@ type c13Case struct {
 	WriteHold int    `json:"write_hold_us"`
 	SameKey   bool   `json:"fresh_terminal_reuses_key"`
 	Stagger   []int  `json:"call_stagger_us"`
+	ReadHold  int    `json:"read_hold_us"` // the read callback holds every message this long (widens the window between a read and its join)
 }
 
 var c13Faults = []string{"before_join", "close_with_queued", "close_on_command", "slow_write_callback", "close_at_timeout", "duplicate_key", "manager_lag"}
@@ -39,6 +40,12 @@ func genC13(t *rapid.T) c13Case {
 	if c.Fault == "slow_write_callback" {
 		c.WriteHold = rapid.SampledFrom([]int{2000, 20000}).Draw(t, "write_hold")
 	}
+	if c.Fault == "duplicate_key" {
+		c.ReadHold = rapid.SampledFrom([]int{0, 20000, 20000}).Draw(t, "read_hold")
+		if c.ReadHold > 0 {
+			c.Q = max(c.Q, 1)
+		}
+	}
 	if c.Fault == "manager_lag" {
 		// another terminal's writer is slow (30 ms per write callback) and its 3-slot command queue is full, so the
 		// session manager lags behind while the victim's commands and then its leave are queued
@@ -53,7 +60,7 @@ func genC13(t *rapid.T) c13Case {
 }
 
 func c13Scenario(c c13Case) Scenario {
-	sc := Scenario{WriteHoldUs: c.WriteHold}
+	sc := Scenario{WriteHoldUs: c.WriteHold, ReadHoldUs: c.ReadHold}
 	victim := identity{Digits: "13800139001", V2019: c.V2019}
 	fresh := identity{Digits: "13800139002", V2019: !c.V2019}
 	if c.SameKey {
@@ -184,6 +191,25 @@ func checkC13(c c13Case, _ *kit.Collector) kit.Result {
 		if n != 1 {
 			res.Err = fmt.Errorf("SOFT fault %q: call %d of %d (timeout %d ms) returned %d times - the caller is stranded", c.Fault, i+1, c.Q, c.TimeoutMs[i], n)
 			return res
+		}
+	}
+	if c.Fault == "manager_lag" {
+		// the slow terminal is online and answers every command: each of its six calls must come back with that response
+		for id := 200; id < 206; id++ {
+			ok := false
+			for _, e := range h.Events {
+				if e.Kind == "call_result" && e.Call == id {
+					ok = e.Flag && e.Err == ""
+					if !ok {
+						res.Err = fmt.Errorf("SOFT command %d for the online (slow) terminal returned %q although the terminal answers every command", id, e.Err)
+						return res
+					}
+				}
+			}
+			if !ok {
+				res.Err = fmt.Errorf("SOFT command %d for the online (slow) terminal never returned", id)
+				return res
+			}
 		}
 	}
 	// afterwards a fresh terminal can join, be commanded and answer
